@@ -194,16 +194,20 @@ class Target:
             paths = getattr(self.cache, 'path_info', None)
             if not isinstance(routers, dict) or not isinstance(paths, dict):
                 return []
+            # compared by value (address, membership), not by object identity, so that a
+            # representation that copies records is not mistaken for an incoherent one
             for (s, x), ri in paths.items():
-                if routers.get(s, {}).get(ri.address) is not ri:
+                listed = routers.get(s, {}).get(ri.address)
+                if listed is None:
                     probs.append(("rep-path-to-unlisted-router", dict(snet=s, dnet=x)))
-                elif x not in ri.dnets:
+                elif x not in listed.dnets:
                     probs.append(("rep-path-not-credited", dict(snet=s, dnet=x)))
             for s, by_addr in routers.items():
                 seen = set()
                 for a, ri in by_addr.items():
                     for x in ri.dnets:
-                        if paths.get((s, x)) is not ri:
+                        p = paths.get((s, x))
+                        if p is None or p.address != a:
                             probs.append(("rep-credited-without-path", dict(snet=s, dnet=x)))
                         if x in seen:
                             probs.append(("rep-two-next-hops", dict(snet=s, dnet=x)))
@@ -340,7 +344,6 @@ def ric_step(d, k, S, R, D, fix=()):
 
 
 # ------------------------------------------------------------------------ on the wire
-from ..world import World
 from bacpypes.vlan import Network, Node
 from bacpypes.apdu import UnconfirmedRequestPDU
 
@@ -367,6 +370,7 @@ class Lan:
     listener on one bacpypes.vlan.Network, real event loop on the virtual clock"""
 
     def __init__(self, net0):
+        from ..world import World       # (needs asyncore: only the wire harness pays for it)
         self.world = World()
         self.lan = Network(name="lan", broadcast_address=LocalBroadcast())
         self.nsap = NetworkServiceAccessPoint()
@@ -553,7 +557,7 @@ def instances(tier):
     out.append(Inst(ric_ops, dict(n=2, S=2, R=3, D=4), budget=60, label="n=2,dom=2x3x4"))
     out.append(Inst(ric_ops, dict(n=2, S=2, R=2, D=2, via_nsap=True), budget=60, label="n=2,dom=2x2x2,via_nsap"))
     if q:
-        _ops(out, 3, (2, 3, 3), (1, 0, 1, 1, 0), 120)
+        _ops(out, 3, (2, 3, 3), (2, 0, 2, 1, 0), 90)
     else:
         _ops(out, 3, FULL, (2, 1, 2, 1, 1), 300)
         _ops(out, 4, (2, 3, 2), (2, 1, 2, 1, 1), 600)
